@@ -39,6 +39,10 @@ pub struct SvcCase {
     pub upload: u32,
     /// client reads the body in pieces with pauses (back-pressure)
     pub slow_reader: bool,
+    /// the client stalls for this long in the middle of the transfer (longer than the session's
+    /// idle timeout when non-zero)
+    #[serde(default)]
+    pub stall_ms: u32,
 }
 
 #[derive(Debug, PartialEq)]
@@ -108,7 +112,7 @@ fn spec_for(c: &SvcCase) -> CoreSpec {
         speedtest: true,
         ping_hosts: vec![("ping.x".into(), 1)],
         speed_hosts: vec![("speed.x".into(), 2)],
-        handshake_timeout: Duration::from_secs(10),
+        handshake_timeout: if c.stall_ms > 0 { Duration::from_secs(2) } else { Duration::from_secs(10) },
         h2_stream_window: if c.slow_reader { Some(70_000) } else { None },
         ..CoreSpec::default()
     }
@@ -163,12 +167,17 @@ async fn run_service(world: &World, c: &SvcCase, w: &Want) -> Observed {
         let chunk = vec![0x55u8; 64 * 1024];
         let mut sent = 0u64;
         // everything but the last byte, then look for a premature response
+        let mut stalled = false;
         while sent + 1 < upload_total {
             let n = ((upload_total - 1 - sent) as usize).min(chunk.len());
             if io.write_all(&chunk[..n]).await.is_err() {
                 break;
             }
             sent += n as u64;
+            if c.stall_ms > 0 && !stalled && sent * 2 >= upload_total {
+                stalled = true;
+                tokio::time::sleep(Duration::from_millis(c.stall_ms as u64)).await;
+            }
         }
         let mut buf: Vec<u8> = vec![];
         if upload_total > 0 {
@@ -184,6 +193,7 @@ async fn run_service(world: &World, c: &SvcCase, w: &Want) -> Observed {
         // read the response
         let deadline = tokio::time::Instant::now() + Duration::from_secs(60);
         let mut head_done: Option<(u16, usize)> = None;
+        let mut dl_stalled = false;
         loop {
             if head_done.is_none() {
                 match parse_h1_response(&buf) {
@@ -204,6 +214,10 @@ async fn run_service(world: &World, c: &SvcCase, w: &Want) -> Observed {
             let mut tmp = vec![0u8; 64 * 1024];
             if c.slow_reader && o.body % (512 * 1024) < 65536 {
                 tokio::time::sleep(Duration::from_millis(3)).await;
+            }
+            if c.stall_ms > 0 && !dl_stalled && o.body > 100_000 {
+                dl_stalled = true;
+                tokio::time::sleep(Duration::from_millis(c.stall_ms as u64)).await;
             }
             match tokio::time::timeout_at(deadline, io.read(&mut tmp)).await {
                 Err(_) => break,
@@ -280,6 +294,7 @@ async fn run_service(world: &World, c: &SvcCase, w: &Want) -> Observed {
     if upload_total > 0 {
         let chunk = Bytes::from(vec![0x55u8; 16 * 1024]);
         let mut sent = 0u64;
+        let mut h2_stalled = false;
         while sent + 1 < upload_total {
             let n = ((upload_total - 1 - sent) as usize).min(chunk.len());
             stream.reserve_capacity(n);
@@ -293,6 +308,10 @@ async fn run_service(world: &World, c: &SvcCase, w: &Want) -> Observed {
                 break;
             }
             sent += n as u64;
+            if c.stall_ms > 0 && !h2_stalled && sent * 2 >= upload_total {
+                h2_stalled = true;
+                tokio::time::sleep(Duration::from_millis(c.stall_ms as u64)).await;
+            }
         }
         if let Ok(r) = tokio::time::timeout(Duration::from_millis(200), &mut fut).await {
             o.response_before_upload_complete = true;
@@ -317,9 +336,14 @@ async fn run_service(world: &World, c: &SvcCase, w: &Want) -> Observed {
         Ok(resp) => {
             o.status = Some(resp.status().as_u16());
             let mut body = resp.into_body();
+            let mut dl_stalled = false;
             loop {
                 if c.slow_reader && o.body % (512 * 1024) < 16384 {
                     tokio::time::sleep(Duration::from_millis(3)).await;
+                }
+                if c.stall_ms > 0 && !dl_stalled && o.body > 100_000 {
+                    dl_stalled = true;
+                    tokio::time::sleep(Duration::from_millis(c.stall_ms as u64)).await;
                 }
                 match tokio::time::timeout(Duration::from_secs(60), body.data()).await {
                     Ok(Some(Ok(b))) => {
@@ -416,13 +440,14 @@ fn svc_strategy(big: bool) -> BoxedStrategy<SvcCase> {
                 content_length,
                 upload,
                 slow_reader,
+                stall_ms: 0,
             })
             .boxed()
     } else {
         prop_oneof![
-            2 => (any::<bool>(), ping_req.clone()).prop_map(|(h2, (method, path))| SvcCase { h2, kind: Kind::PingHost, method, path, content_length: None, upload: 0, slow_reader: false }),
-            2 => (any::<bool>(), ping_req, marker).prop_map(|(h2, (method, path), (n, v))| SvcCase { h2, kind: Kind::PingMarker(n, v), method, path, content_length: None, upload: 0, slow_reader: false }),
-            8 => (any::<bool>(), any::<bool>(), speed, any::<bool>()).prop_map(|(h2, on_host, (method, path, content_length, upload), slow_reader)| SvcCase {
+            2 => (any::<bool>(), ping_req.clone()).prop_map(|(h2, (method, path))| SvcCase { h2, kind: Kind::PingHost, method, path, content_length: None, upload: 0, slow_reader: false, stall_ms: 0 }),
+            2 => (any::<bool>(), ping_req, marker).prop_map(|(h2, (method, path), (n, v))| SvcCase { h2, kind: Kind::PingMarker(n, v), method, path, content_length: None, upload: 0, slow_reader: false, stall_ms: 0 }),
+            8 => (any::<bool>(), any::<bool>(), speed, any::<bool>(), prop_oneof![3 => Just(0u32), 1 => Just(5000u32)]).prop_map(|(h2, on_host, (method, path, content_length, upload), slow_reader, stall_ms)| SvcCase {
                 h2,
                 kind: if on_host { Kind::SpeedHost } else { Kind::SpeedPath },
                 method,
@@ -430,6 +455,7 @@ fn svc_strategy(big: bool) -> BoxedStrategy<SvcCase> {
                 content_length,
                 upload,
                 slow_reader,
+                stall_ms,
             }),
         ]
         .boxed()
@@ -449,7 +475,7 @@ impl Suite for ServiceSuite {
         if self.big {
             "speedtest at the documented bounds: downloads of 37, 99 and 100 MiB, uploads of 64 MiB, 120 MiB - 1 and 120 MiB, on a speedtest host and under /speed/ on the main host, HTTP/1.1 and HTTP/2, fast and slow readers; same oracle; every case non-trivial".into()
         } else {
-            "requests on a ping host, on the main host with a ping marker (x-ping: 1 / sec-fetch-mode: navigate), on a speedtest host and under /speed/ on the main host, over HTTP/1.1 and HTTP/2 in memory with an authenticator configured and no credentials sent: GET /Nmb.bin with N in {1,2,3,0,101,2^32,2^32+1,007,+5,1.5,'',-1,1e1}, POST /upload.html with Content-Length in {1..3e6, 120 MiB+1, 2^32+1, abc, absent, 0}, other methods and paths; client reads fast or with pauses (small HTTP/2 windows); oracle: ping => 200, zero body bytes, no forwarder call; canonical 1 <= N <= 100 => 200 and exactly N x 2^20 zero bytes; accepted upload => no response before the last body byte, then 200; everything else 400 (non-canonical spellings of in-range numbers and L = 0 are don't-care); never 407; non-trivial = N or L at or beyond a bound, or a marker on the main host".into()
+            "requests on a ping host, on the main host with a ping marker (x-ping: 1 / sec-fetch-mode: navigate), on a speedtest host and under /speed/ on the main host, over HTTP/1.1 and HTTP/2 in memory with an authenticator configured and no credentials sent: GET /Nmb.bin with N in {1,2,3,0,101,2^32,2^32+1,007,+5,1.5,'',-1,1e1}, POST /upload.html with Content-Length in {1..3e6, 120 MiB+1, 2^32+1, abc, absent, 0}, other methods and paths; client reads fast or with pauses (small HTTP/2 windows), or stalls for 5 s in the middle of a transfer while the session's idle timeout is 2 s (a running test must keep the session alive); oracle: ping => 200, zero body bytes, no forwarder call; canonical 1 <= N <= 100 => 200 and exactly N x 2^20 zero bytes; accepted upload => no response before the last body byte, then 200; everything else 400 (non-canonical spellings of in-range numbers and L = 0 are don't-care); never 407; non-trivial = N or L at or beyond a bound, or a marker on the main host".into()
         }
     }
     fn strategy(&self, _: Tier) -> BoxedStrategy<SvcCase> {
@@ -475,13 +501,19 @@ impl Suite for ServiceSuite {
             v.push("nontrivial");
         }
         v.push(if c.h2 { "h2" } else { "h1" });
+        if c.stall_ms > 0 && matches!(want(c), Want::Ok(n) if n > 0) {
+            v.push("stalled-download");
+        }
+        if c.stall_ms > 0 && matches!(want(c), Want::Upload(_)) {
+            v.push("stalled-upload");
+        }
         v
     }
     fn required_classes(&self) -> Vec<&'static str> {
         if self.big {
             vec![]
         } else {
-            vec!["nontrivial", "must-refuse", "ping", "download", "upload", "h1", "h2"]
+            vec!["nontrivial", "must-refuse", "ping", "download", "upload", "h1", "h2", "stalled-download", "stalled-upload"]
         }
     }
     fn check(&self, c: &SvcCase) -> Verdict {
